@@ -434,6 +434,11 @@ def binop(I, node, op, l, r):
         if n == 2:
             out.tags["squared"] = l
     out.sign = sign_binop(op, l, r)
+    if isinstance(op, ast.Div) and r.tag("norm_ord") == 1 and r.tag("norm_of") == l.term and l.term not in (None, ("?",)) \
+            and l.sign in ("NONNEG", "POS") \
+            and r.tag("reduced_axis") in (-1, 1):
+        out.tags["simplex_rows"] = True      # non-negative rows divided by their own L1 norm
+        out.sign = "NONNEG"
     d, lit = deg_binop(op, l, r)
     if d is not None:
         out.tags["deg"] = d
@@ -442,9 +447,17 @@ def binop(I, node, op, l, r):
     # neutral-centred chromaticity bookkeeping
     if isinstance(op, ast.Sub) and l.tag("bary") and r.tag("bary"):
         out.tags["bary"] = True
-        out.frame = ("CENT", r.tag("offset_id") if r.tag("offset_id") is not None else r.term)
+        if isinstance(l.frame, tuple) and l.frame[0] == "CENT":
+            I.type_error(node, "QTY", "a centre is subtracted from chromatic coordinates that are already centred", sub="centre")
+        out.frame = ("CENT", r.term)
     elif isinstance(op, ast.Add) and l.tag("bary") and r.tag("bary"):
         out.tags["bary"] = True
+        cl, cr = (l, r) if isinstance(l.frame, tuple) and l.frame[0] == "CENT" else ((r, l) if isinstance(r.frame, tuple) and r.frame[0] == "CENT" else (None, None))
+        if cl is not None:
+            if cl.frame[1] != cr.term:
+                I.type_error(node, "QTY", "the centre added back to the scaled chromatic coordinates is not the centre that was "
+                                          "subtracted before scaling (hue directions are taken from a different point)", sub="centre")
+            out.frame = None
     elif isinstance(op, (ast.Mult, ast.Div)) and (l.tag("bary") or r.tag("bary")):
         out.tags["bary"] = True
         out.frame = l.frame if l.tag("bary") else r.frame
@@ -613,9 +626,23 @@ def subscript(I, e, b):
         return mk([b, idx])
     out = mk([b, idx], term=mk_term("getitem", b.term, idx.term))
     out.unit, out.frame, out.sign = b.unit, b.frame, b.sign
-    for k in ("deg", "litfactor", "kind", "bary", "simplex_rows", "offset_id", "hull_pts", "rowsof"):
+    if idx.tag("hull_attr") in ("simplices", "vertices"):
+        hv = idx.tag("attr_of")[1]
+        pts = hv.tag("points")
+        if pts is not None and pts.term is not None and b.term is not None and pts.term != b.term:
+            I.type_error(e, "INDEX", f"`{idx.tag('hull_attr')}` of a triangulation/hull of one point set index a different array: "
+                                     f"the indices refer to the rows of the array qhull was given", sub="index")
+        else:
+            I.emit("typed_op", e, op="hull-index", unit={"idx": 1})
+        out.tags["rowsof"] = b
+        if idx.tag("hull_attr") == "simplices":
+            out.tags["simplices_of"] = b
+    for k in ("deg", "litfactor", "kind", "bary", "simplex_rows", "offset_id", "hull_pts", "rowsof", "maybe_zero_rows", "unit_cube",
+              "simplices_of"):
         if b.tag(k) is not None:
             out.tags[k] = b.tag(k)
+    if idx.tag("zero_row_mask_of") is not None and idx.tag("zero_row_mask_inverted"):
+        out.tags.pop("maybe_zero_rows", None)        # only rows with a non-zero entry are selected
     elems = _index_elems(e)
     basic = True
     shape = b.shape
@@ -1125,8 +1152,9 @@ def call_method(I, e, base, attr, args, kws):
 # ------------------------------------------------------------------ extern dispatch
 def call_extern(I, e, dotted, args, kws, method=False):
     from . import ext_models as X
+    raw = dotted
     dotted = X.canonical(dotted)
-    ev = I.emit("ext_call", e, dotted=dotted, args=args, kws=kws, method=method)
+    ev = I.emit("ext_call", e, dotted=dotted, raw=raw, args=args, kws=kws, method=method)
     fn = X.MODELS.get(dotted)
     if fn is None:
         I.ctx.note(f"no model for external callable {dotted}")
